@@ -210,7 +210,7 @@ fn obs_lines(names: &[String], pure1: &[String]) -> String {
     for n in names {
         if n == "rd0" || n.starts_with("own_eq") {
             s += &format!("emit(\"call\", \"{n}\", {n}())\n");
-        } else if n == "ad0" || n == "lp0" || n == "use_gf0" || n == "use_and0" || pure1.contains(n) {
+        } else if n == "ad0" || n == "lp0" || n == "use_gf0" || n == "use_and0" || n == "use_slices0" || pure1.contains(n) {
             s += &format!("emit(\"call\", \"{n}\", {n}(3))\n");
         } else if n == "held0" {
             s += "emit(\"call\", \"held0\", held0[1](), held0[2][\"f\"](4))\n";
@@ -306,6 +306,10 @@ impl World for C04 {
                     "GS0 = \"s\"",
                     "def use_gf0(x):\n    if GF0:\n        return [x, GF0, GL0, GS0]\n    return [x, GS0 + \"-\" + str(GF0)]",
                     "def use_and0(x):\n    return (GF0 and x) or [GL0, x, \"%s-%s\" % (GS0, x)]",
+                    "GL6 = [0, 1, 2, 3, 4, 5]",
+                    "GT6 = (0, 1, 2, 3, 4, 5)",
+                    "GS6 = \"abcdef\" + str(len(GL6))",
+                    "def use_slices0(i):\n    return [GL6[i:5:1], GL6[1:i:1], GL6[0:5:i], GL6[i:], GL6[:i], GL6[::i], GL6[i:5], GL6[i::2], GT6[i:5:1], GS6[i:5:1], GL6[-i:6:1], GL6[i], GT6[-i]]",
                     "GF0 = 0",
                     "GL0 = GL0 + [2]",
                     "GS0 = GS0 + \"t\"",
